@@ -71,6 +71,7 @@ use std::fs::File;
 use std::io::{BufReader, BufWriter, Seek, SeekFrom, Write};
 use std::path::{Path, PathBuf};
 use bytes::Bytes;
+use chrono::{Timelike, Utc};
 use log::error;
 use rpki::uri;
 use rpki::crypto::DigestAlgorithm;
@@ -89,6 +90,17 @@ use crate::utils::binio::{Compose, Parse, ParseError};
 use crate::utils::dump::DumpRegistry;
 use crate::utils::json::JsonBuilder;
 use crate::utils::uri::UriExt;
+
+
+/// Returns the current time at the resolution of stored times.
+///
+/// Times are stored with second resolution only. Times that end up in
+/// stored data or are compared with it are truncated right away so they
+/// are still the same after having been written and read back.
+fn now() -> Time {
+    let now = Utc::now();
+    Time::new(now.with_nanosecond(0).unwrap_or(now))
+}
 
 
 //------------ Store ---------------------------------------------------------
@@ -462,7 +474,7 @@ impl<'a> Run<'a> {
     ) -> Self {
         Run { 
             store,
-            started: Time::now(),
+            started: now(),
         }
     }
 
@@ -475,7 +487,7 @@ impl<'a> Run<'a> {
         let Ok(mut file) = fatal::create_file(&path) else {
             return
         };
-        if let Err(err) = StoredStatus::new(Time::now()).write(&mut file) {
+        if let Err(err) = StoredStatus::new(now()).write(&mut file) {
             error!(
                 "Failed to write store status file {}: {}",
                 path.display(), err
@@ -814,7 +826,7 @@ impl StoredPoint {
 
         if matches!(header.update_status, UpdateStatus::LastAttempt(_)) {
             // We never succeeded. Update the status and return.
-            header.update_status = UpdateStatus::LastAttempt(Time::now());
+            header.update_status = UpdateStatus::LastAttempt(now());
 
             drop(file);
             let mut file = File::create(&path).map_err(|err| {
@@ -974,7 +986,7 @@ impl StoredPoint {
     ) -> Result<(), UpdateError> {
         let mut tmp_file = BufWriter::new(tmp_file);
 
-        self.header.update_status = UpdateStatus::Success(Time::now());
+        self.header.update_status = UpdateStatus::Success(now());
 
         if let Err(err) = self.header.write(&mut tmp_file) {
             error!(
@@ -1056,7 +1068,7 @@ impl StoredPoint {
     /// updated the point and changes `self` accordingly.
     pub fn reject(&mut self) -> Result<(), Failed> {
         self.is_new = true;
-        self.header.update_status = UpdateStatus::LastAttempt(Time::now());
+        self.header.update_status = UpdateStatus::LastAttempt(now());
         self.manifest = None;
         self.file = None;
 
@@ -1164,7 +1176,7 @@ impl StoredPointHeader {
     ) -> Self {
         Self {
             manifest_uri, rpki_notify,
-            update_status: UpdateStatus::LastAttempt(Time::now()),
+            update_status: UpdateStatus::LastAttempt(now()),
         }
     }
 
